@@ -18,14 +18,15 @@ from harness.props import c13_codec as CD
 THEOREMS = ["C13_isolation", "C13_default_unaltered", "C13_shared_cache_refuted", "C13_merge_total",
             "C13_merge_covers_all_options", "C13_merge_strategies", "C13_codec_option_uniform",
             "C13_twin_partial", "C13_call_dialect_refuted", "C13_union_partial",
-            "C13_union_member_flags_refuted"]
+            "C13_union_member_flags_refuted", "C13_options_only_via_resolution", "C13_every_option_read",
+            "C13_option_defaults_consistent", "C13_flag_keyword_default", "C13_twin_strategy_sources"]
 
 BOOL_OPTS = ("omit_none", "omit_default", "serialize_by_alias", "namedtuple_as_dict")
 FIVE = ("serialize_by_alias", "namedtuple_as_dict", "omit_none", "omit_default", "no_copy_collections")
-CID = {"P": 0, "C": 1, "G": 2, "S": 3, "Inner": 4}
+CID = {"P": 0, "C": 1, "G": 2, "S": 3, "Inner": 4, "Plain": 5}
 HIER = "[(1, [0]); (2, [1; 0]); (3, [0])]"
 TSETS = {frozenset(["t_P"]): "P", frozenset(["t_P", "t_C"]): "C", frozenset(["t_P", "t_C", "t_G"]): "G",
-         frozenset(["t_P", "t_S"]): "S", frozenset(["t_Inner"]): "Inner"}
+         frozenset(["t_P", "t_S"]): "S", frozenset(["t_Inner"]): "Inner", frozenset(["t_Plain"]): "Plain"}
 
 
 # ---------------------------------------------------------------------------
@@ -177,7 +178,7 @@ def strategy_corr(ctx: vlib.Ctx):
 # histories on class families
 # ---------------------------------------------------------------------------
 
-KINDS = ["opt", "int", "alias", "nt", "list", "str", "optstr", "bytes"]
+KINDS = ["opt", "int", "alias", "nt", "list", "str", "optstr", "bytes", "selfopt", "selflist"]
 
 
 def gen_spec(r) -> dict:
@@ -186,19 +187,26 @@ def gen_spec(r) -> dict:
     for i in range(1, k + 1):
         s = {o: r.choice([None, None, True, False]) for o in BOOL_OPTS}
         s["no_copy_collections"] = r.choice([None, None, "empty", "list", "listdict"])
-        s["int"] = r.choice([None, None, "dict", "strat"])
+        s["int"] = r.choice([None, None, "dict", "strat", "ser", "de"])
+        s["bytes"] = r.choice([None, None, "de"])
         s["str"] = r.random() < 0.3
         dialects[str(i)] = s
     base = None
-    if r.random() < 0.25:
+    if r.random() < 0.3:
         # the classes have a default dialect of their own: a dialect that says no more than dialect j
         j = r.randint(1, k)
         b = {o: (v if r.random() < 0.6 else (None if o != "str" else False)) for o, v in dialects[str(j)].items()}
         base = k + 1
         dialects[str(base)] = b
     flags = ["dialect"]
-    if r.random() < 0.2:
+    if r.random() < 0.3:
         flags += r.choice([["omit_none"], ["by_alias"], ["omit_none", "by_alias"]])
+        if base is not None:
+            # keyword flags whose default must come from the classes' default dialect
+            if "omit_none" in flags and r.random() < 0.7:
+                dialects[str(base)]["omit_none"] = True
+            if "by_alias" in flags and r.random() < 0.7:
+                dialects[str(base)]["serialize_by_alias"] = True
 
     def cfg():
         c = {"flags": list(flags)}
@@ -213,11 +221,14 @@ def gen_spec(r) -> dict:
         out = [[f"{prefix}{next(cnt)}", kd] for kd in r.sample(KINDS, r.randint(lo, hi))]
         if r.random() < inner_p:
             out.append([f"{prefix}in", "inner"])
+        if r.random() < (inner_p * 0.7 if inner_p else 0.15):
+            out.append([f"{prefix}pl", "plain"])      # a plain (non-mixin) dataclass: compiled on demand
         return out
 
     mixin = "DataClassMessagePackMixin" if r.random() < 0.35 else None
     classes = {
         "Inner": {"base": None, "mixin": mixin, "fields": [["n", "opt"], ["w", "int"]], "config": cfg()},
+        "Plain": {"base": None, "plain_dataclass": True, "fields": [["q", "opt"]], "config": cfg()},
         "P": {"base": None, "mixin": mixin, "fields": flds("p", 3, 5, 0.0), "config": cfg()},
         "C": {"base": "P", "fields": flds("c", 1, 3, 0.5), "config": cfg() if r.random() < 0.25 else None},
         "G": {"base": "C", "fields": flds("g", 1, 2, 0.0), "config": cfg() if r.random() < 0.25 else None},
@@ -225,8 +236,19 @@ def gen_spec(r) -> dict:
     }
     if any(kd == "inner" for f, kd in classes["C"]["fields"]):
         pass
-    return {"dialects": dialects, "classes": classes, "order": ["Inner", "P", "C", "G", "S"], "flags": flags,
-            "base_dialect": base, "mixin": mixin}
+    return {"dialects": dialects, "classes": classes, "order": ["Inner", "Plain", "P", "C", "G", "S"], "flags": flags, "lazy": r.random() < 0.3,
+            "base_dialect": base, "mixin": mixin, "cfg_int": r.random() < 0.4}
+
+
+def uniform_flag_options(spec: dict) -> bool:
+    """A keyword flag is forwarded to nested dataclasses and then overrides THEIR Config value, so 'a flag only adds
+    a keyword' is claimed only for families whose classes agree on the Config value of the flag-steered options."""
+    for flag, opt in (("omit_none", "omit_none"), ("by_alias", "serialize_by_alias")):
+        if flag in spec.get("flags", []):
+            vals = {json.dumps(c["config"].get(opt)) for c in spec["classes"].values() if c.get("config") is not None}
+            if len(vals) > 1:
+                return False
+    return True
 
 
 def covers(spec: dict, di) -> bool:
@@ -239,7 +261,13 @@ def covers(spec: dict, di) -> bool:
     if di is None:
         return True                      # plain call: the twin is the family itself
     bs, ds = spec["dialects"][str(b)], spec["dialects"][str(di)]
+    dirs = {None: set(), "dict": {"s", "d"}, "strat": {"s", "d"}, "ser": {"s"}, "de": {"d"}}
+    for o in ("int", "bytes"):
+        if not dirs[bs.get(o)] <= dirs[ds.get(o)]:
+            return False
     for o, v in bs.items():
+        if o in ("int", "bytes"):
+            continue
         if v not in (None, False) or (v is False and o != "str"):
             dv = ds.get(o)
             if dv is None or (o == "str" and not dv):
@@ -247,22 +275,31 @@ def covers(spec: dict, di) -> bool:
     return True
 
 
-def gen_vals(r, fam: F.Family, cname: str) -> dict:
+def gen_vals(r, fam: F.Family, cname: str, depth: int = 0) -> dict:
     vals = {}
     for f, kind in fam.all_fields(cname):
+        if kind in ("selfopt", "selflist"):
+            # recursive positions: nested nodes of the same class, two or three levels deep
+            if depth < 2 and r.random() < (0.75 if depth == 0 else 0.4):
+                if kind == "selfopt":
+                    vals[f] = gen_vals(r, fam, cname, depth + 1)
+                else:
+                    vals[f] = [gen_vals(r, fam, cname, depth + 1) for _ in range(r.randint(1, 2))]
+            continue
         if r.random() < 0.25:
             continue                                   # leave the default
         vals[f] = {"opt": lambda: r.choice([None, 3, 0]), "int": lambda: r.choice([5, 6, 0]),
                    "alias": lambda: r.choice([7, 8]), "nt": lambda: r.choice([[1, 2], [3, 4]]),
                    "list": lambda: r.choice([[], [1, 2], [5]]), "str": lambda: r.choice(["s", "abc"]),
                    "optstr": lambda: r.choice([None, "x"]), "bytes": lambda: r.choice(["6162", "00ff10", ""]),
-                   "inner": lambda: {"n": r.choice([None, 4]), "w": r.choice([5, 9])}}[kind]()
+                   "inner": lambda: {"n": r.choice([None, 4]), "w": r.choice([5, 9])},
+                   "plain": lambda: {"q": r.choice([None, 2])}}[kind]()
     return vals
 
 
 def gen_history(r, spec: dict, n_ops: int) -> list:
     k = len(spec["dialects"]) - (1 if spec.get("base_dialect") is not None else 0)   # the classes' own default dialect is not passed to calls
-    ops = [["define", "Inner"], ["define", "P"]]
+    ops = [["define", "Inner"], ["define", "Plain"], ["define", "P"]]
     defined = ["P"]
     pending = ["C", "S"]
     hot = [r.randint(1, k)]
@@ -281,6 +318,10 @@ def gen_history(r, spec: dict, n_ops: int) -> list:
         dirs = ["to", "to", "from"] + (["mto", "mto", "mfrom"] if spec.get("mixin") else [])
         ops.append(["call", c, r.choice(dirs), d, None])   # vals filled at run time
     return ops
+
+
+def has_kind(fam: F.Family, cname: str, kind: str) -> bool:
+    return any(k == kind for _f, k in fam.all_fields(cname))
 
 
 def has_inner(fam: F.Family, cname: str):
@@ -323,6 +364,59 @@ def decode_from(res):
     return (CID[name], vals.pop())
 
 
+def nested_to(raw):
+    """(class name or None, decoded tag) of every nested dataclass document, in the order the nested
+    to_dict calls happen (pre-order, field order)."""
+    out = []
+
+    def visit(v):
+        if isinstance(v, dict):
+            if any(isinstance(k, str) and k.startswith("t_") for k in v):
+                tag = decode_to(v)
+                ts = frozenset(k for k in v if isinstance(k, str) and k.startswith("t_"))
+                out.append((TSETS.get(ts), tag))
+                walk(v)
+            else:
+                for x in v.values():
+                    visit(x)
+        elif isinstance(v, (list, tuple)):
+            for x in v:
+                visit(x)
+
+    def walk(d):
+        for x in d.values():
+            visit(x)
+
+    if isinstance(raw, dict):
+        walk(raw)
+    return out
+
+
+def nested_from(res):
+    """the same for from_dict: nested dataclass instances that were actually unpacked (a defaulted
+    nested instance has undecoded tags)."""
+    import dataclasses
+    out = []
+
+    def visit(v):
+        if dataclasses.is_dataclass(v) and not isinstance(v, type):
+            marks = [getattr(getattr(v, a), "m", -1) for a in dir(v) if a.startswith("t_")]
+            if any(isinstance(m, int) and m >= 0 for m in marks):
+                out.append((type(v).__name__, decode_from(v)))
+                walk(v)
+        elif isinstance(v, (list, tuple)) and not hasattr(v, "_fields"):
+            for x in v:
+                visit(x)
+
+    def walk(inst):
+        for f in dataclasses.fields(inst):
+            visit(getattr(inst, f.name))
+
+    if res is not None and dataclasses.is_dataclass(res):
+        walk(res)
+    return out
+
+
 def coq_tag(t, base=None):
     if t is None:
         return "None"
@@ -354,6 +448,16 @@ class HistoryRun:
             self.twins[key] = F.Family(self.spec, None if key is None else (("idx", key) if isinstance(key, int) else key))
         return self.twins[key]
 
+    def unflagged(self):
+        if "noflags" not in self.twins:
+            sp = copy.deepcopy(self.spec)
+            sp["flags"] = ["dialect"]
+            for c in sp["classes"].values():
+                if c.get("config") is not None:
+                    c["config"]["flags"] = ["dialect"]
+            self.twins["noflags"] = F.Family(sp, None)
+        return self.twins["noflags"]
+
     def close(self):
         self.fam.close()
         for t in self.twins.values():
@@ -364,7 +468,13 @@ class HistoryRun:
         for idx, op in enumerate(self.ops):
             if op[0] == "define":
                 fam.define(op[1])
+                if op[1] == "Plain":
+                    continue          # a plain dataclass: nothing is compiled until a class that uses it is
                 for d in self.dirs:
+                    if has_kind(fam, op[1], "plain") and not self.spec.get("lazy"):
+                        # eager class creation compiles the plain nested class on demand (dialect None)
+                        self.model[d][0].append(["define", CID["Plain"]])
+                        self.model[d][1].append(None)
                     self.model[d][0].append(["define", CID[op[1]]])
                     self.model[d][1].append(None)
                 continue
@@ -374,47 +484,73 @@ class HistoryRun:
                 op[4] = vals
             tw = self.twin(di)
             mops, mouts = self.model[direction]
-            inner_f = has_inner(fam, c)
+            if self.spec.get("lazy") and has_kind(fam, c, "plain"):
+                # lazy_compilation: the first call in this (format, direction) compiles the class, and with it
+                # the plain nested class (default method, own cache) -- repeated definitions are idempotent
+                mops.append(["define", CID["Plain"]])
+                mouts.append(None)
             mp = direction in ("mto", "mfrom")
             if direction in ("to", "mto"):
                 got, gid, raw = F.call_to_dict(fam, c, vals, di, mp)
                 exp, eid, _ = F.call_to_dict(tw, c, vals, None, mp)
                 mops.append(["call", CID[c], di])
                 mouts.append(decode_to(raw))
-                if inner_f and isinstance(raw, dict):
-                    nested = [v for v in raw.values() if isinstance(v, dict) and "t_Inner" in v]
-                    mops.append(["call", CID["Inner"], di])
-                    mouts.append(decode_to(nested[0]) if nested else None)
+                for ncls, tag in nested_to(raw):
+                    mops.append(["call", CID.get(ncls, 4), di])
+                    mouts.append(tag)
                 ok = (got == exp and gid == eid)
                 observed, expected = [got, gid], [exp, eid]
+                flags = self.spec.get("flags", ["dialect"])
+                if ok and di is None and len(flags) > 1 and self.mismatch is None and uniform_flag_options(self.spec):
+                    # a keyword flag only adds a keyword: without that keyword the result is the one of the same
+                    # family without the flag options (whatever supplies the option: Config, Config.dialect, format)
+                    nf = self.unflagged()
+                    exp2, eid2, _ = F.call_to_dict(nf, c, vals, None, mp)
+                    if [got, gid] != [exp2, eid2]:
+                        self.mismatch = {"index": idx, "op": [c, direction, di, vals], "observed": [got, gid],
+                                         "expected": [exp2, eid2], "kind": "keyword-flag-changes-default-output"}
+                        break
             else:
                 if covers(self.spec, di):
                     _, _, doc = F.call_to_dict(tw, c, vals, None, mp)      # a document of dialect di
                 else:
                     # the call dialect is layered over the classes' own default dialect: the matching document is
                     # the one the family itself writes (one more to_dict call in the history)
-                    _, _, doc = F.call_to_dict(fam, c, vals, di, mp)
+                    dgot, dgid, doc = F.call_to_dict(fam, c, vals, di, mp)
+                    if doc is None:          # the family cannot even write its own document: that call is the failure
+                        self.stats.append((c, "mto" if mp else "to", di))
+                        self.mismatch = {"index": idx, "op": [c, "mto" if mp else "to", di, vals], "observed": [dgot, dgid],
+                                         "expected": "a document, not an exception"}
+                        break
                     tops, touts = self.model["mto" if mp else "to"]
+                    if self.spec.get("lazy") and has_kind(fam, c, "plain"):
+                        tops.append(["define", CID["Plain"]])
+                        touts.append(None)
                     tops.append(["call", CID[c], di])
                     touts.append(decode_to(doc))
-                    if inner_f and isinstance(doc, dict):
-                        nested = [v for v in doc.values() if isinstance(v, dict) and "t_Inner" in v]
-                        tops.append(["call", CID["Inner"], di])
-                        touts.append(decode_to(nested[0]) if nested else None)
+                    for ncls, tag in nested_to(doc):
+                        tops.append(["call", CID.get(ncls, 4), di])
+                        touts.append(tag)
                 got, res = F.call_from_dict(fam, c, doc, di, mp)
                 exp, _ = F.call_from_dict(tw, c, doc, None, mp)
                 mops.append(["call", CID[c], di])
                 mouts.append(decode_from(res))
-                if inner_f and isinstance(doc, dict) and res is not None:
-                    inner = getattr(res, inner_f, None)
-                    if any(isinstance(v, dict) and "t_Inner" in v for v in doc.values()):
-                        mops.append(["call", CID["Inner"], di])
-                        mouts.append(decode_from(inner))
+                nres = nested_from(res)
+                ndoc = nested_to(doc)
+                for i, (ncls, _t) in enumerate(ndoc):          # one nested from_dict call per nested document
+                    mops.append(["call", CID.get(ncls, 4), di])
+                    mouts.append(nres[i][1] if i < len(nres) else None)
                 ok = got == exp
                 observed, expected = got, exp
             self.stats.append((c, direction, di))
             if not covers(self.spec, di):
                 self.uncovered += 1
+                g0 = observed[0] if direction in ("to", "mto") else observed
+                if isinstance(g0, tuple) and len(g0) == 2 and g0[0] == "exc" and self.mismatch is None:
+                    # no twin to compare with (layered dialects), but a call on a document of its own dialect never raises
+                    self.mismatch = {"index": idx, "op": [c, direction, di, vals], "observed": observed,
+                                     "expected": "a result (the family's own document / instance), not an exception"}
+                    break
                 continue
             if not ok and self.mismatch is None:
                 self.mismatch = {"index": idx, "op": [c, direction, di, vals], "observed": observed, "expected": expected}
@@ -424,17 +560,25 @@ class HistoryRun:
     def cache_case(self, direction) -> str:
         mops, mouts = self.model[direction]
         keys = []
-        for name in ("P", "C", "G", "S", "Inner"):
+        for name in ("P", "C", "G", "S", "Inner", "Plain"):
             ks = F.own_cache_keys(self.fam, name, direction)
             keys.append("None" if ks is None else "Some [" + "; ".join(map(str, ks)) + "]")
-        return (f"({HIER}, [0; 1; 2; 3; 4], [" + "; ".join(coq_op(o) for o in mops) + "], (["
+        return (f"({HIER}, [0; 1; 2; 3; 4; 5], [" + "; ".join(coq_op(o) for o in mops) + "], (["
                 + "; ".join(coq_tag(t, self.spec.get("base_dialect")) for t in mouts) + "], [" + "; ".join(keys) + "]))")
 
 
 def classify_history_failure(hr: HistoryRun, mm: dict) -> dict:
     """Signature of a history mismatch; narrow predicate for call-dialect-vs-flag-defaults."""
     c, direction, di, vals = mm["op"]
+    if mm.get("kind"):
+        return {"kind": mm["kind"], "direction": direction}
     sig = {"kind": "call-dialect-differs-from-twin", "direction": direction}
+    obs = mm["observed"][0] if direction in ("to", "mto") else mm["observed"]
+    if (hr.spec.get("lazy") and hr.spec.get("mixin") and direction in ("mto", "mfrom") and di is not None
+            and any(k in ("selfopt", "selflist") for _f, k in hr.fam.all_fields(c))
+            and list(obs) == ["exc", "AttributeError" if direction == "mto" else "InvalidFieldValue"]
+            and not any(o[0] == "call" and o[1] == c and o[2] == direction and o[3] is None for o in hr.ops[:mm["index"]])):
+        return {"kind": "lazy-format-self-first-dialect-call", "direction": direction}
     flags = hr.spec.get("flags", ["dialect"])
     if direction in ("to", "mto") and di is not None and ("omit_none" in flags or "by_alias" in flags):
         dspec = hr.spec["dialects"][str(di)]
@@ -473,14 +617,17 @@ def history_part(ctx: vlib.Ctx, n_hist=None, tag=""):
                 ctx.hist("history_class", c)
             ctx.hist("family_flags", "+".join(spec["flags"]))
             ctx.hist("family_mixin", spec.get("mixin") or "DataClassDictMixin")
+            ctx.hist("family_compilation", "lazy" if spec.get("lazy") else "eager")
             ctx.hist("family_default_dialect", "own Config.dialect" if spec.get("base_dialect") else "none")
             if hr.uncovered:
                 ctx.hist("history_calls", "skipped:call-dialect-does-not-cover-Config.dialect", hr.uncovered)
             if mm is not None:
                 sig = classify_history_failure(hr, mm)
                 upto = [list(o) for o in ops[:mm["index"] + 1]]
+                what_twin = ("the same family without keyword-flag options" if sig["kind"] == "keyword-flag-changes-default-output"
+                             else f"the twin family whose default dialect is D{mm['op'][2]}")
                 ctx.fail(f"{mm['op'][0]}.{ {'to': 'to_dict', 'from': 'from_dict', 'mto': 'to_msgpack', 'mfrom': 'from_msgpack'}[mm['op'][1]] }(dialect=D{mm['op'][2]}) after "
-                         f"{mm['index']} earlier operations differs from the twin family whose default dialect is D{mm['op'][2]}",
+                         f"{mm['index']} earlier operations differs from {what_twin}",
                          {"entry": "history", "spec": spec, "source": F.family_source(spec), "ops": upto,
                           "observed": mm["observed"], "expected": mm["expected"]}, sig)
                 if sig["kind"] == "call-dialect-vs-flag-defaults":
@@ -661,7 +808,7 @@ def run(ctx: vlib.Ctx):
         "interleavings of class definitions and to_dict/from_dict calls with dialects from {None, D1..Dk}; distinct = (history, class, "
         "direction, dialect). codecs: 6 formats x all 2^6 settings (5 options set/unset x strategy map) x dataclass shapes x values; "
         "distinct = (format, option vector, shape, value). merge: random option namespaces / strategy maps.")
-    ctx.theorems("props/C13_dialects.vo", THEOREMS, kernels=["K2", "K3", "K13"])
+    ctx.theorems("props/C13_dialects.vo", THEOREMS, kernels=["K2", "K3", "K5", "K13", "K13F"])
     ctx.trusted += [
         "DialectCache.step: model of the generated prologue/dispatch of add_(un)pack_method (attribute lookup through the MRO, "
         "own-namespace creation, dict item assignment); compared with real class families on every run",
@@ -714,6 +861,24 @@ def replay(rep: dict) -> int:
             hr.close()
         if mm is not None:
             print("operation", mm["op"], "\n observed", mm["observed"], "\n expected", mm["expected"])
+            print("REPRODUCED")
+            return 1
+        print("not reproduced")
+        return 0
+    if entry == "source":
+        ns: dict = {"__name__": "c13_replay_src"}
+        mod = types.ModuleType("c13_replay_src")
+        sys.modules["c13_replay_src"] = mod
+        try:
+            exec(rep["source"], mod.__dict__)
+            try:
+                got = repr(eval(rep["call"], mod.__dict__))
+            except Exception as e:  # noqa: BLE001
+                got = f"{type(e).__name__}: {e}"
+        finally:
+            sys.modules.pop("c13_replay_src", None)
+        print("observed", got, "expected", rep["expected"])
+        if got != rep["expected"]:
             print("REPRODUCED")
             return 1
         print("not reproduced")
